@@ -3,6 +3,8 @@ package main
 import (
 	"fmt"
 	"strings"
+	"sync/atomic"
+	"time"
 
 	"github.com/lrstanley/girc"
 )
@@ -66,7 +68,10 @@ func runC17(c *Ctx) {
 	r := c.R
 	r.Rule = "real sessions: PING tokens of every shape (empty, spaces, colon-leading, long, UTF-8, multiple params) injected before/after registration and between other traffic; " +
 		"sequences of 433/436/437 of length 0-6 before and after 001 where the server rejects each proposal in turn, with no callback / a suffix callback / a fixed-value callback / one returning \"\", " +
-		"with a 437 naming a channel; compared with the model and with the property predicates; non-trivial = >= 2 PINGs or >= 2 collisions; distinct = distinct (config, history)"
+		"with a 437 naming a channel; a PING while the flood limiter is saturated by a burst of 14 messages (latency < 700 ms); compared with the model and with the property predicates; non-trivial = >= 2 PINGs or >= 2 collisions; distinct = distinct (config, history)"
+	for _, tok := range []string{"busy", "busy token"}[:1+min(c.Scale-1, 1)] {
+		c.run("pongbusy", map[string]string{"token": tok})
+	}
 	toks := []string{"x", ":a b", ":", ":  lead", "123456789", ":é ü", "a b c", ":" + strings.Repeat("t", 300), "srv.example.org", "::x"}
 	for i := 0; i < 120*c.Scale; i++ {
 		in := map[string]string{"nick": c.Rng.Pick([]string{"me", "Nick[1]", "a"}), "check": "c17"}
@@ -130,4 +135,48 @@ func runC17(c *Ctx) {
 			r.Sample(steps)
 		}
 	}
+}
+
+// "promptly written, independent of the flood limiter": with flood protection on and the limiter
+// saturated by a burst of messages, a server PING must still be answered at once.
+func init() {
+	runners["pongbusy"] = func(c *Ctx, in map[string]string) {
+		hin := hexIn(in)
+		cl := girc.New(girc.Config{Server: "irc.example.org", Port: 6667, Nick: "me", User: "me", Name: "me"}) // AllowFlood off
+		d, err := newDispClientFor(cl)
+		if err != nil {
+			c.R.Mismatch("pongbusy.setup", hin, err.Error(), "")
+			return
+		}
+		defer func() { go d.close() }()
+		idle := pongLatency(d, "idle")
+		// saturate the limiter: the senders block inside Send once the allowance is used up
+		var returned int32
+		for i := 0; i < 14; i++ {
+			go func(i int) {
+				cl.Cmd.Message("#chan", fmt.Sprintf("burst message number %d with some padding to make it cost more", i))
+				atomic.AddInt32(&returned, 1)
+			}(i)
+		}
+		time.Sleep(250 * time.Millisecond)
+		stillHeld := 14 - int(atomic.LoadInt32(&returned)) // senders blocked inside Send: the limiter is holding them
+		busy := pongLatency(d, in["token"])
+		if stillHeld == 0 {
+			c.R.Mismatch("pongbusy.not_saturated", hin, "no sender was held back: the limiter was not saturated", "")
+		}
+		if idle < 0 || busy < 0 {
+			c.R.Violation("pongbusy.unanswered", hin, fmt.Sprintf("idle=%dms busy=%dms (-1 = no PONG within 5 s)", idle, busy), "", "every PING is answered")
+		} else if busy > 700 {
+			c.R.Violation("pongbusy.delayed", hin, fmt.Sprintf("PONG %q took %d ms while the flood limiter was saturated (idle: %d ms)", in["token"], busy, idle), "< 700 ms", "the PONG is written promptly, independent of the flood limiter")
+		}
+		c.R.Count("pongbusy/"+in["token"], true, "pongbusy")
+	}
+}
+
+func pongLatency(d *dispClient, tok string) int64 {
+	t0 := time.Now()
+	if !d.barrier(tok) {
+		return -1
+	}
+	return time.Since(t0).Milliseconds()
 }
